@@ -5,15 +5,18 @@ import gen as G
 import codec
 
 MODEL_TARGETS = ["model/Ser.vo", "model/De.vo", "spec/Denote.vo", "spec/Encoding.vo"]
-COQ_TARGETS = ["props/C01.vo"]
-THEOREMS = [("C01", ["C01_any", "C01_any_default", "C01_node", "C01_encoding_injective", "C01_encoding_prefix_free", "C01_typed"])]
-PROOF_FILES = ["proofs/RoundTripProofs.v", "proofs/SerProofs.v", "proofs/DeProofs.v", "proofs/VarintProofs.v", "props/C01.v", "proofs/RoundTripTyped.v", "proofs/DS1.v", "proofs/DS2.v", "proofs/DS3.v", "proofs/DS4.v", "proofs/DS5.v", "proofs/DS6.v", "proofs/DS7.v"]
+COQ_TARGETS = ["props/C01.vo", "proofs/SerDispatchTie.vo"]
+THEOREMS = [("C01", ["C01_any", "C01_any_default", "C01_node", "C01_encoding_injective", "C01_encoding_prefix_free", "C01_typed"]),
+            ("SerDispatchTie", ["tie_ser_bool", "tie_ser_integer", "tie_ser_f32", "tie_ser_f64", "tie_ser_str", "tie_ser_bytes", "tie_ser_unit", "tie_ser_unit_struct", "tie_ser_unit_variant", "tie_ser_seq", "tie_ser_map", "tie_ser_forward_names", "tie_ser_simple_forwards", "ser_int_leaf_is_rows", "ser_str_leaf_is_rows", "ser_bytes_leaf_is_rows"])]
+PROOF_FILES = ["proofs/RoundTripProofs.v", "proofs/SerProofs.v", "proofs/DeProofs.v", "proofs/VarintProofs.v", "props/C01.v", "proofs/RoundTripTyped.v", "proofs/DS1.v", "proofs/DS2.v", "proofs/DS3.v", "proofs/DS4.v", "proofs/DS5.v", "proofs/DS6.v", "proofs/DS7.v", "proofs/SerDispatchTie.v"]
 TRUSTED_BASE = [
+    "dispatch tie: translators/gen_ser_dispatch.py (+ rustmatch.py) reads the arms of the serialize_* methods of DatumSerializer into gen/GenSerDispatch.v; proofs/SerDispatchTie.v ties them to the rows of model/Ser.v (leaf functions proved to be the interpretation of the rows on non-union nodes; 2 arms unclassified: the Decimal arm of serialize_integer and the Union arm of serialize_unit_variant)",
     "Coq 8.16.1 kernel; no axioms (Print Assumptions: closed)",
     "spec/{AvroValue,Encoding,Denote,Wf}.v written from the Avro specification: values, conformance, the encoding, the canonical presentation `present` (union branches by reported name), the expected callback traces dval_any / dval_typed",
     "hand-written models Ser.v and De.v/Reader.v/Varint.v tied by the correspondence run (bytes, events, borrowed offsets, consumed length)",
     "translators/gen_union.py (union lookup table regenerated from the source)",
     "extraction (ExtrOcamlBasic) + ocaml/driver.ml; Rust harness: sval realised as a Serialize value, dtarget as a recording DeserializeSeed; harness/src/rtypes.rs: a family of ordinary Rust types (derive Serialize/Deserialize) round-tripped natively",
+    "harness/src/rt_fixed.rs (`rt`): fixed Rust types incl. an enum with a symbol called Null under Option / Vec / map, optional fields skipped by the Serialize impl (skip_serializing_if) at every position, a union of same-short-name types; each value also written through short-writing sinks and exact / too-small slices (std's write_all contract)",
 ]
 ASSUMPTIONS = [
     "schema_wf (spec/Wf.v): keys in range, union branches are not unions and pairwise distinct in the name the deserializer reports, distinct field names / symbols. This excludes unions with two duration branches, which the specification allows: known finding KF1 (the frozen schema keeps no name for a duration)",
@@ -37,6 +40,25 @@ def run(ctx):
     quick = ctx["tier"] == "quick"
     n = 700 if quick else 40000
     pairs = [G.schema_and_value(rng, layouts=False) for _ in range(n)]
+    # names that collide with what the union lookup registers (enum symbols called Null / String / ..., named types
+    # sharing a short name across namespaces): random schemas with such names, and the directed families
+    import directed as D
+    pairs += [G.schema_and_value(rng, layouts=False, special_names=0.35) for _ in range(n // 3)]
+    n_dir = 260 if quick else 6000
+    for _ in range(n_dir):
+        nodes = D.name_clash_case(rng)
+        for _ in range(2):
+            v = G.ValueGen(rng, nodes, layouts=False).gen(0)
+            if v is not None:
+                pairs.append((nodes, v))
+    # records most of whose fields are omittable and hold null (for the omission subsets below)
+    n_rec = 70 if quick else 2500
+    rec_from = len(pairs)
+    for _ in range(n_rec):
+        nodes = D.nullable_record_case(rng)
+        v = D.value_with_nulls(rng, nodes)
+        if v is not None:
+            pairs.append((nodes, v))
     sp = codec.spec_batch(pairs)
     ser_lines = ["ser %s %s" % (s["schema"], s["present"]) for s in sp]
     # the same values in other branch-determining serde shapes (fields permuted, nullable fields omitted, structs as maps,
@@ -44,11 +66,21 @@ def run(ctx):
     from present import Presenter
     alt = []
     for s in sp:
-        pr = Presenter(rng, s["nodes"], break_prob=0.0, by_type_prob=0.15)
-        sv = pr.pres(0, C.parse_sx(s["evalue"])[0])
-        if pr.expect == "value":
-            alt.append((s, "ser %s %s%s" % (s["schema"], sv, " slow" if pr.needs_slow else "")))
-    ai, am = codec.both([l for _, l in alt])
+        for rep in range(2):
+            # second round: unions of null and one other branch the way Option<T> presents them (branch determined by type)
+            pr = Presenter(rng, s["nodes"], break_prob=0.0, by_type_prob=0.15 if rep == 0 else 0.0, option_prob=0.0 if rep == 0 else 0.8)
+            sv = pr.pres(0, C.parse_sx(s["evalue"])[0])
+            if pr.expect == "value" or pr.expect == "value-if-ok":
+                if rep == 1 and pr.expect == "value":
+                    continue        # no such union in this schema: same family as the first round
+                alt.append((s, "ser %s %s%s" % (s["schema"], sv, " slow" if pr.needs_slow else ""), pr.expect))
+    # every subset of omitted null-holding fields x presentation orders (identity, reverse, rotations, random) of the
+    # records above: fields that follow an omitted one are buffered until end() fills the gap
+    for s in sp[rec_from:]:
+        rc = D.RecCase(rng, s)
+        for line, perm, sub, form in rc.omission_lines(4 if quick else 8, 16):
+            alt.append((s, line, "value"))
+    ai, am = codec.both([l for _, l, _ in alt])
     si, sm = codec.both(ser_lines)
     violations, diffs, samples, distinct = [], [], [], set()
     from collections import Counter
@@ -69,15 +101,18 @@ def run(ctx):
             for mode in modes:
                 de_lines.append("de %s %s %s %s" % (s["schema"], target, enc, mode))
                 de_meta.append((tg + "/" + mode.split(" ")[0].strip("("), "(ok %s 0)" % exp, enc, mode == "slice"))
-    for (s, line), ri, rm in zip(alt, ai, am):
+    for (s, line, expect), ri, rm in zip(alt, ai, am):
         distinct.add(line)
         if not C.same_outcome(ri, rm) or (ri.startswith("(ok") and ri != rm):
             diffs.append(codec.diff_entry(line, ri, rm))
         p = C.parse_sx(ri)[0]
         if p[0] != "ok":
-            violations.append({"impl_case": line, "what": "serializing a conforming value (alternative presentation) failed", "impl": ri[:300]})
+            if expect == "value":
+                violations.append({"impl_case": line, "what": "serializing a conforming value (alternative presentation) failed", "impl": ri[:300]})
+            else:
+                dist["ser-by-type-rejected"] += 1
             continue
-        dist["ser-alt-ok"] += 1
+        dist["ser-alt-ok" if expect == "value" else "ser-by-type-ok"] += 1
         de_lines.append("de %s any %s slice" % (s["schema"], p[1]))
         de_meta.append(("alt/slice", "(ok %s 0)" % s["dany"], p[1], True))
     di, dm = codec.both(de_lines)
@@ -108,7 +143,10 @@ def run(ctx):
         violations.append({"class": "two-duration-branches", "impl_case": "ser %s %s" % (KF1_CASE[0], KF1_CASE[1]),
                            "what": "value presented for the first of two duration branches is written as the last one", "impl": kf[:200]})
     return {"evaluations": len(ser_lines) + len(de_lines) + dist["rust-types"], "distinct_nontrivial": len(distinct),
-            "rule": "random valid schemas (all node kinds and logical types, named references, recursion) x conforming values, canonical presentation: "
+            "rule": "random valid schemas (all node kinds and logical types, named references, recursion; names colliding with the union lookup's: "
+                    "enum symbols called Null/String/..., named types sharing a short name across namespaces, at random and as directed families; "
+                    "records of mostly omittable fields) x conforming values, canonical presentation and alternative ones (fields permuted, every "
+                    "subset of null-holding fields omitted x orders, unions of null and one branch presented as Option<T> does, i.e. by type): "
                     "to_datum must succeed; the bytes are decoded from a slice and from chunked readers under the dynamic target and the typed "
                     "target; events must equal the specification's expectation (bit-exact floats, byte-exact strings, branch names, symbols); "
                     "borrowed events must point into the input slice; model vs crate on every call; plus native round trips of a family of "
